@@ -102,8 +102,9 @@ func main() {
 		cmd.Env = append(os.Environ(), "GORACE=halt_on_error=0 history_size=5 log_path="+logBase)
 		out, err := cmd.CombinedOutput()
 		if err != nil && !strings.Contains(string(out), "SUMMARY ") {
+			// the workload did not finish (a crash inside the library, for instance); what the race detector had reported
+			// up to then is in its log files and is read below all the same
 			c.Inconclusive(fmt.Sprintf("race workload run %d failed: %v: %s", rep, err, vk.Trunc(string(out), 800)))
-			continue
 		}
 		for _, line := range strings.Split(string(out), "\n") {
 			if strings.HasPrefix(line, "SUMMARY ") {
